@@ -520,7 +520,8 @@ func (s *Datastore) write(
 			case storage.OnDuplicateInsertIgnore:
 				// If the tuple exists and the condition is the same, we can ignore it.
 				// We need to use its serialized text instead of reflect.DeepEqual to avoid comparing internal values.
-				if proto.Equal(existingTuple.GetKey().GetCondition(), tk.GetCondition()) {
+				if proto.Equal(existingTuple.GetKey().GetCondition(), tk.GetCondition()) ||
+					sqlcommon.ConditionsDifferOnlyInEmptyContext(existingTuple.GetKey().GetCondition(), tk.GetCondition()) {
 					continue
 				}
 				// If tuple conditions are different, we throw an error.
